@@ -336,10 +336,17 @@ package twig
 // fields and maps (frame discharged for every function by the ctxframe obligations of C11); what it
 // does to caches, pools and the template cache is not visible to the callers' obligations.
 //@ group ctxeffects
-//@   modifies ctx.extending, ctx.currentBlock
+//@   modifies ctx.extending, ctx.currentBlock, ctx.blockLevel
 //@   modifies entries(ctx.context), entries(ctx.blocks), entries(ctx.parentBlocks), entries(ctx.macros)
+// a render context handed to a node has its four maps (NewRenderContext and Clone make them; only
+// Release, after which a context is not used, takes them away)
+//@ define ctxWF(C) (C.context != nil && C.blocks != nil && C.parentBlocks != nil && C.macros != nil)
+//@ group renderwf props: C05
+//@   requires ctxWF(ctx)
+//@ apply renderwf (*Node).Render
 //@ iface Node.Render
 //@   assumed
+//@   requires ctxWF(ctx)
 //@   use ctxeffects
 //@   ghostset tr emitRender(old(tr), recv, ctx)
 //@ func (*RenderContext).EvaluateExpression
